@@ -21,6 +21,7 @@ ASSUMPTIONS = [
     "fake iterates supply the (objective, violation) pair; the solver's use of the veto is C12/C16",
 ]
 SERIAL = False
+CASE_ALARM_S = 400
 
 TABLE = {
     "quick": {"V": [0, 1, 2], "depth": 5},
